@@ -5,7 +5,7 @@ CONSTANTS
   Closer = "c"
   Tables = {"t1"}
   LocSeq <- Loc2
-  FreeLocs = TRUE
+  FreeLocs = FALSE
   BatchSizes = {1, 2, 3}
   PerIns = 2
   PerFl = 2
